@@ -6,7 +6,9 @@ oracle:      (a) fragment trees of the documented grammar, rendered by this file
              (b) text protected by the three documented quoting rules comes back unchanged;
              (c) raw strings: only ParseError or a value, never another exception;
              (d) infix condition == function-call form, through the real pyparsing grammar.
-correspond:  the same streams (plus one-character mutations) through the Lean model `drv_c17`.
+correspond:  the same streams (plus one-character mutations) through the Lean model `drv_c17`;
+             plus the generated trees through the Lean *spec* (Model/SubstSpec.lean: render, eval, WF - the
+             right-hand side of theorem subst_render_eval) against this file's render/spec_eval.
 """
 import random
 
@@ -522,6 +524,7 @@ def oracle(ctx):
 
 
 def correspond(ctx):
+    correspond_spec(ctx)
     reqs, impl, cases = [], [], []
 
     def add(text, env, nounset, sandbox, tools, kind):
@@ -580,6 +583,43 @@ def correspond(ctx):
     ctx.trace_validated(len(reqs2))
 
 
+SPEC_ERRKIND = {"arity": "funArity", "tool": "funError", "toolvar": "funError", "unknown function": "unknownFun"}
+
+
+def spec_outcome(c):
+    """this file's evaluator of the documented rules, error kinds named as in the Lean model"""
+    try:
+        return ("ok", spec_eval(c["frags"], c["env"], c["nounset"], c["sandbox"], c["tools"]))
+    except SpecError as x:
+        msg = str(x)
+        return ("err", "unsetVar" if msg.startswith("unset ") else SPEC_ERRKIND.get(msg, "other:" + msg))
+
+
+def correspond_spec(ctx):
+    """Lean's tree semantics (SubstSpec.render / eval / WF) == Python's render / spec_eval on generated trees.
+    subst_render_eval is a statement about SubstSpec; this ties SubstSpec itself to the oracle's reading of the
+    documentation, and shows that the generated trees are inside the proved fragment (WF)."""
+    reqs, cases = [], []
+    for c in tree_cases(ctx, ctx.scale(5000, 120000), "corr-spec"):
+        reqs.append({"op": "speceval", "frags": c["frags"], "env": c["env"], "nounset": c["nounset"],
+                     "sandbox": c["sandbox"], "tools": c["tools"]})
+        cases.append(c)
+    for c, m in zip(cases, ctx.lean(DRIVER, reqs)):
+        ctx.case((c["text"], sorted(c["env"].items()), c["nounset"], "spec"), nontrivial=any(x in c["text"] for x in META))
+        want = spec_outcome(c)
+        got = ("ok", m["ok"]) if "ok" in m else ("err", m.get("err"))
+        ctx.count("spec_eval", got[0] if got[0] == "ok" else "err:" + str(got[1]))
+        ctx.count("spec_wf", "wf" if m.get("wf") else "not-wf")
+        rec = {"kind": "spec", "text": c["text"], "frags": c["frags"], "env": c["env"], "nounset": c["nounset"],
+               "sandbox": c["sandbox"], "tools": c["tools"]}
+        if m.get("text") != c["text"]:
+            ctx.disagree("render == Model.SubstSpec.render", rec, c["text"], m.get("text"))
+        elif got != want:
+            ctx.disagree("spec_eval == Model.SubstSpec.eval", rec, list(want), list(got))
+        elif not m.get("wf"):
+            ctx.disagree("generated tree is SubstSpec.WF (inside the fragment covered by subst_render_eval)", rec, True, False)
+
+
 def replay(ctx, case):
     k = case.get("kind")
     if k == "tree":
@@ -620,8 +660,10 @@ def _tuplify(x):
 MANIFEST = {
     "text": "Proved in Lean for all inputs (Props/C17.lean): the fast path of the parser is transparent, text protected by the "
             "documented quoting rules is returned unchanged, the parser terminates within 2*len+4 fuel (outOfFuel unreachable), infix "
-            "operators equal their function-call forms, and parse(render t) = eval t for the documented fragment grammar (see the file for "
-            "which of these are full and which `_partial`). The model is a hand-written transliteration of StringParser/IfExpression; "
+            "operators equal their function-call forms, and parse(render t) = eval t (values and error kinds) for every well-formed tree of the "
+            "documented fragment grammar, with laziness of the untaken :-/:+ branch as a corollary (all at full strength, no `_partial`). "
+            "The tree semantics used in that theorem (Model/SubstSpec.lean) is itself compared with the Python evaluator of the documented "
+            "rules on every generated tree. The model is a hand-written transliteration of StringParser/IfExpression; "
             "it is tied to the current source by a differential run (~25k strings per quick run, value and error kind compared) and "
             "by constants regenerated from the source. An independent Python evaluator of the documented rules is the property oracle.",
     "note": "trusted: Lean kernel, harness/props/c17.py, tools/consts/c17.py, CPython str.strip/lower/replace semantics (modelled, "
